@@ -22,6 +22,20 @@ impl ToBeBytesX for u64 {
     fn to_be_bytes_x(self) -> (r: [u8; 8]) ensures r@ == be8(self) { self.to_be_bytes() }
 }
 
+/// little-endian counterpart (specified so that a change of byte order is DECIDED against the big-endian statement, not lost as
+/// an unknown method)
+pub open spec fn le8(x: u64) -> Seq<u8> {
+    seq![
+        (x & 0xff) as u8, ((x >> 8) & 0xff) as u8, ((x >> 16) & 0xff) as u8, ((x >> 24) & 0xff) as u8,
+        ((x >> 32) & 0xff) as u8, ((x >> 40) & 0xff) as u8, ((x >> 48) & 0xff) as u8, ((x >> 56) & 0xff) as u8,
+    ]
+}
+pub trait ToLeBytesX { fn to_le_bytes_x(self) -> [u8; 8]; }
+impl ToLeBytesX for u64 {
+    #[verifier::external_body]
+    fn to_le_bytes_x(self) -> (r: [u8; 8]) ensures r@ == le8(self) { self.to_le_bytes() }
+}
+
 /// bit reversal of the n low bits of x (arithmetic definition)
 pub open spec fn bitrev(x: nat, n: nat) -> nat decreases n {
     if n == 0 { 0 } else { (x % 2) * pow2((n - 1) as nat) + bitrev(x / 2, (n - 1) as nat) }
